@@ -410,6 +410,14 @@ func (p *Pollard) Verify(delHashes []Hash, proof Proof, remember bool) error {
 			len(proof.Targets), len(delHashes))
 	}
 
+	// An empty hash stands for a deleted subtree. No node that a proof is made of is
+	// ever empty so refuse it.
+	for _, proofHash := range proof.Proof {
+		if proofHash == empty {
+			return fmt.Errorf("Pollard.Verify fail. The proof has an empty hash")
+		}
+	}
+
 	_, rootCandidates, err := calculateHashes(p.NumLeaves, delHashes, proof)
 	if err != nil {
 		return err
